@@ -83,8 +83,15 @@ def _contract_opts():
     )
 
 
-def op_strategy():
-    tsf = st.sampled_from([0, 2, 4, 16])
+def _op_name(strategy):
+    """The constant under 'op' of one of the fixed_dictionaries below."""
+    return strategy.wrapped_strategy.mapping["op"].value
+
+
+def op_strategy(kinds=None):
+    """One operation; ``kinds`` restricts the choice to operations of these
+    names - by construction, not by filtering."""
+    tsf = st.sampled_from([0, 2, 4, 16, -1])
     ops = [
         st.fixed_dictionaries(
             {"op": st.just("reconf"), "inplace": st.booleans(), "kw": _reconf_kw()}
@@ -288,13 +295,18 @@ def op_strategy():
     def with_obs(d):
         return st.tuples(d, OBS).map(lambda t: {**t[0], "obs": t[1]})
 
+    if kinds is not None:
+        ops = [o for o in ops if _op_name(o) in kinds]
     return st.one_of(*[with_obs(o) for o in ops])
 
 
 @st.composite
 def histories(draw, max_n=7, max_ops=10):
+    mode = draw(st.integers(0, 6))
     net = draw(
-        gen.networks(min_n=2, max_n=max_n, max_dim=4, volume_limit=2**16)
+        gen.networks(
+            min_n=2 if mode < 6 else 5, max_n=max_n if mode < 6 else max(max_n, 10), max_dim=4, volume_limit=2**16
+        )
     )
     path = draw(gen.linear_paths(len(net["inputs"])))
     THEMES = {
@@ -304,12 +316,27 @@ def histories(draw, max_n=7, max_ops=10):
         "slicing": {"remove", "restore", "slice", "unslice_rand", "unslice_all", "slice_unslice", "contract", "copy"},
         "recipes": {"sort", "reset_inds", "contract", "reconf", "anneal", "remove", "restore", "copy"},
     }
-    mode = draw(st.integers(0, 5))
-    if mode == 5:
+    if mode >= 6:
+        # a SLICED tree is annealed / tempered without a size target (which
+        # leaves the slicing alone) and then again with one (which slices and
+        # unslices as it goes): whatever the first run left attached to the
+        # tree meets a changing set of sliced labels in the second
+        def pick(kinds):
+            return draw(op_strategy(kinds))
+
+        ops = [dict(pick({"remove"}), project=None, inplace=True, obs="none") for _ in range(draw(st.integers(1, 2)))]
+        ops.append(dict(pick({"anneal", "temper"}), tsf=0, inplace=True, obs="none"))
+        second = dict(pick({"anneal", "temper"}), tsf=draw(st.sampled_from([-1, -1, 2, 16])), obs=draw(st.sampled_from(["none", "real"])))
+        # (enough temperature steps for the slicing schedule to act)
+        second["kw"] = dict(second["kw"], tsteps=3, numiter=3)
+        ops.append(second)
+        if draw(st.booleans()):
+            ops.append(dict(pick({"anneal", "temper", "unslice_rand", "slice"}), obs="none"))
+    elif mode == 5:
         theme = draw(st.sampled_from(sorted(THEMES)))
         allowed = THEMES[theme]
         ops = draw(
-            st.lists(op_strategy().filter(lambda o: o["op"] in allowed), min_size=3, max_size=7)
+            st.lists(op_strategy(allowed), min_size=3, max_size=7)
         )
         # mostly unobserved in between
         ops = [dict(o, obs=draw(st.sampled_from(["none", "none", "copy", "real"]))) for o in ops]
@@ -348,6 +375,7 @@ def histories(draw, max_n=7, max_ops=10):
         "net": net,
         "path": path,
         "ops": ops,
+        "mode": mode,
         "aseed": draw(st.integers(0, 2**16)),
         "dtype": draw(st.sampled_from(["f", "c"])),
         "init": init,
@@ -747,6 +775,9 @@ class Machine:
         return pool
 
     def _target_size(self, tree, f):
+        if f < 0:
+            # a loose target: whatever is sliced may be relaxed again
+            return 2**40
         return max(1, tree.max_size() // f)
 
     def apply(self, op, what):
